@@ -579,6 +579,10 @@ fn main() {
     return;
   }
   if input["world"].get("fill_deps").is_some() {
+    if input["world"].get("load_request").is_some() {
+      println!("{}", filldeps::run_load_request(&input));
+      return;
+    }
     if input["world"].get("edges").is_some() {
       println!("{}", filldeps::run_edges(&input));
       return;
